@@ -17,10 +17,10 @@ type Batch struct {
 	Name     string            `json:"name"`
 	Args     map[string]string `json:"args,omitempty"`
 	Race     bool              `json:"race"`
-	Procs    int               `json:"procs,omitempty"`    // GOMAXPROCS (0 = all cores)
-	Kind     string            `json:"kind,omitempty"`     // "" = worker process, "synctest" = go1.26.8 test bubble
+	Procs    int               `json:"procs,omitempty"`     // GOMAXPROCS (0 = all cores)
+	Kind     string            `json:"kind,omitempty"`      // "" = worker process, "synctest" = go1.26.8 test bubble
 	TimeoutS int               `json:"timeout_s,omitempty"` // wall-clock watchdog (inconclusive when it fires)
-	Weight   int               `json:"-"`                  // scheduling hint: cores used
+	Weight   int               `json:"-"`                   // scheduling hint: cores used
 }
 
 // Ctx is what a worker gets.
@@ -29,7 +29,7 @@ type Ctx struct {
 	Tier  string
 	Seed  int64
 	Batch Batch
-	Only  string // "" or "<gen>:<idx>": run only that case
+	Only  string          // "" or "<gen>:<idx>": run only that case
 	Skip  map[string]bool // cases excluded (culprits of earlier crashes)
 	R     *rig.Result
 	J     *rig.Journal
